@@ -870,3 +870,31 @@ Proof.
   revert R. generalize (init 1 t0). induction ops; cbn [fold_left]; intros s R; [assumption|].
   apply IHops. apply reachable_seq_step. assumption.
 Qed.
+
+(* ---------- the chunk container's byte counter describes exactly the tasks in the container ----------
+   (at every step of every schedule, no hypothesis on the configuration: it is reset in the same
+   critical section that takes the tasks out, never later) *)
+Definition size_inv (cf : config) (s : state) : Prop :=
+  chunk cf = true -> c_size (s_cont s) = sumsz (sz cf) (c_tasks (s_cont s)).
+
+Lemma step_size_inv cf s l s' : size_inv cf s -> step cf s l = Some s' -> size_inv cf s'.
+Proof.
+  intros I H. step_cases H i t a Hi.
+  all: pre_cases H Hi.
+  all: try (inversion H; subst s'; clear H).
+  all: try match goal with |- context [do_execute ?b _] => unfold do_execute; destruct (has_tasks b) end.
+  all: try match goal with |- context [do_done _] => unfold do_done, set_thr; simpl s_wg; destruct (s_wg s) end.
+  all: try solve [ unfold size_inv, set_thr, spawn in *; simpl; exact I ].
+  all: unfold size_inv, set_thr in *; simpl; intro Ech; specialize (I Ech);
+    unfold add_task; rewrite ?Ech; simpl; rewrite ?sumsz_nil; try reflexivity;
+    rewrite sumsz_app; unfold sumsz at 2; simpl; lia.
+Qed.
+
+Lemma container_size_inv cf s : reachable cf s -> size_inv cf s.
+Proof.
+  intros [n [t0 [sched R]]].
+  assert (I0 : size_inv cf (init n t0)) by (intros _; reflexivity).
+  revert I0 R. generalize (init n t0). induction sched as [|l r IH]; simpl; intros s0 I0 R.
+  - inversion R; subst; assumption.
+  - destruct (step cf s0 l) eqn:E; [|discriminate]. eapply IH; [|exact R]. eapply step_size_inv; eauto.
+Qed.
